@@ -46,6 +46,9 @@ type world struct {
 	globals starlark.StringDict // the frozen module globals
 	env     starlark.StringDict // predeclared environment of operations: globals + json + struct
 	vals    []starlark.Value    // by spec.names index
+	// preSeqs (round-5 extension): for every list value, a host-built list with the same elements whose
+	// Go push iterator was obtained BEFORE the list was frozen; the iterator is then used by all goroutines
+	preSeqs map[int]func(func(starlark.Value) bool)
 }
 
 var shortWords = []string{"a", "k", "zz", "key", "spam", "x1", "eleven_char"}
@@ -401,6 +404,19 @@ func (sp *worldSpec) build() (*world, error) {
 			return nil, fmt.Errorf("world %d lacks global %s", sp.id, n)
 		}
 		w.vals = append(w.vals, v)
+		if l, ok := v.(*starlark.List); ok {
+			elems := make([]starlark.Value, l.Len())
+			for i := range elems {
+				elems[i] = l.Index(i)
+			}
+			hl := starlark.NewList(elems)
+			seq := hl.Elements()
+			hl.Freeze()
+			if w.preSeqs == nil {
+				w.preSeqs = map[int]func(func(starlark.Value) bool){}
+			}
+			w.preSeqs[len(w.vals)-1] = seq
+		}
 	}
 	return w, nil
 }
